@@ -14,6 +14,7 @@ CONSTANTS
   Funds = 1000
   Fees = {0}
   WithRotate = FALSE
+  WithUpgradeRev = TRUE
   Delay = 0
   LimWhere <- AllLimWhere
   LimitSets <- NoLimits
